@@ -126,7 +126,11 @@ VF_MAIN
   int t, c, mx = 0;
   for (t = 0; t < VF_THREADS; ++t) for (c = 0; c < VF_CALLS; ++c) {
     int l = nondet_int();
+#ifdef VF_LEN4
+    __CPROVER_assume(l == 8 || l == 16 || l == 32 || l == 64);
+#else
     __CPROVER_assume(l == 8 || l == 16 || l == 32);
+#endif
     in_len[t][c] = l; if (l > mx) mx = l;
   }
 #ifdef KF_C17_LAZY_INIT      /* known finding excluded: first use happens before the threads start */
